@@ -62,6 +62,7 @@ func runC01(c *Ctx) {
 	c.r0114(pk)
 	c.r0115(pk)
 	c.r0116(pk)
+	c.r0117(pk)
 }
 
 // R01.13: traversals of binding patterns reach every nested binding.
@@ -1816,6 +1817,9 @@ func init() {
 	mutant(&Mutant{Name: "c01-cond-branches-clear-infor", Property: "C01", File: "js/js.go",
 		Old: "\t\tm.write(questionBytes)\n\t\tm.minifyExpr(expr.X, js.OpAssign)\n\t\tm.write(colonBytes)\n\t\tm.minifyExpr(expr.Y, js.OpAssign)\n", New: "\t\tm.write(questionBytes)\n\t\tparentInFor := m.inFor\n\t\tm.inFor = false\n\t\tm.minifyExpr(expr.X, js.OpAssign)\n\t\tm.write(colonBytes)\n\t\tm.minifyExpr(expr.Y, js.OpAssign)\n\t\tm.inFor = parentInFor\n",
 		Rule: "R01.16", Construct: "minifyExpr/cleared region"})
+	mutant(&Mutant{Name: "c01-laststmt-looks-through-labels", Property: "C01", File: "js/util.go",
+		Old: "\t\treturn lastStmt(block.List[len(block.List)-1])\n\t}\n", New: "\t\treturn lastStmt(block.List[len(block.List)-1])\n\t} else if labelled, ok := stmt.(*js.LabelledStmt); ok {\n\t\treturn lastStmt(labelled.Value)\n\t}\n",
+		Rule: "R01.17", Construct: "lastStmt"})
 	mutant(&Mutant{Name: "c01-array-rest-only-identifier", Property: "C01", File: "js/vars.go",
 		Old: "\t\tif binding.Rest != nil {\n\t\t\tvs = append(vs, bindingVars(binding.Rest)...)\n\t\t}", New: "\t\tif v, ok := binding.Rest.(*js.Var); ok {\n\t\t\tvs = append(vs, v)\n\t\t}",
 		Rule: "R01.13", Construct: "bindingVars/case *js.BindingArray"})
